@@ -107,11 +107,21 @@ func c05MinimalCases() []c05Case {
 	}}
 	rules := c05Fld{W: []string{"rules"}, T: sl(rule), Tag: "json", KS: "camel", Def: dflt(`[{"on1":true},{}]`)}
 	cases = append(cases,
-		c05Case{S: []c05Fld{rules}, D: c05Obj()},
+		// (the same field ABSENT is not listed here: kit.Enumerate has no wedge watchdog, a
+		// re-entrant lock there would end as a time-out; it is replays/json-nested-slice-default.json,
+		// which kit.Run replays under the watchdog)
 		c05Case{S: []c05Fld{rules}, D: c05Obj(c05KV{K: "rules0", V: c05Arr(c05Obj())})},
 	)
 	return cases
 }
+
+// c05NestedDefaultCase: every field absent; the slice of structs and the slices inside
+// its elements all come from declared defaults.
+func c05NestedDefaultCase() c05Case {
+	cs := c05MinimalCases()
+	c := cs[len(cs)-1]
+	c.D = c05Obj()
+	return c
 }
 
 // c05DumpReplays writes one replay file (kit.ReplayFile format, rule "json") per
@@ -125,6 +135,14 @@ func c05DumpReplays(dir string) {
 		40: "env-int64-duration-panic", 41: "env-pointer-panic"}
 	cases := c05MinimalCases()
 	_ = os.MkdirAll(dir, 0o755)
+	{
+		nd := c05NestedDefaultCase()
+		raw, _ := json.Marshal(nd)
+		rf := kit.ReplayFile{Property: "C05", Rule: "json", Case: raw,
+			Message: "regression input (no defect on the unchanged tree): nested slice defaults, everything absent: " + c05Describe(&nd)}
+		b, _ := json.MarshalIndent(rf, "", " ")
+		_ = os.WriteFile(filepath.Join(dir, "json-nested-slice-default.json"), b, 0o644)
+	}
 	for i, id := range pick {
 		raw, _ := json.Marshal(cases[i])
 		rf := kit.ReplayFile{Property: "C05", Rule: "json", Known: id, Case: raw,
